@@ -140,12 +140,29 @@ func loadWorld(repo string, needs int) (*World, error) {
 	}
 	w := &World{Repo: abs, Fset: token.NewFileSet(), Pkgs: map[string]*packages.Package{}, SSA: map[string]*ssa.Package{},
 		ToolPkgs: map[string]*packages.Package{}, ToolSSA: map[string]*ssa.Package{}, funcsCache: map[*ssa.Package][]*ssa.Function{}}
-	newKeys := newFuncKeys(abs)
-	overlay, notes := buildOverlay(abs, abs, newKeys, "./tars/...")
+	tdir := filepath.Join(abs, "tars/tools/tars2go")
+	plan := computeRenamePlan(abs)
+	nameOv, nnotes := buildNameOverlay(abs, abs, plan, "./tars/...")
+	w.Notes = append(w.Notes, nnotes...)
+	var toolNameOv map[string][]byte
+	allNameOv := map[string][]byte{}
+	for k, v := range nameOv {
+		allNameOv[k] = v
+	}
+	if needs&NeedTool != 0 {
+		var tn []string
+		toolNameOv, tn = buildNameOverlay(tdir, abs, plan, "./...")
+		w.Notes = append(w.Notes, tn...)
+		for k, v := range toolNameOv {
+			allNameOv[k] = v
+		}
+	}
+	newKeys := newFuncKeys(abs, allNameOv)
+	overlay, notes := buildOverlay(abs, abs, newKeys, nameOv, "./tars/...")
 	w.Notes = append(w.Notes, notes...)
 	roots, err := loadModule(abs, w.Fset, overlay, "./tars/...")
 	if err != nil && overlay != nil {
-		w.Notes = append(w.Notes, "helper normalisation abandoned (the expanded source does not type-check: "+firstLine(err.Error())+"); analysing the source as written")
+		w.Notes = append(w.Notes, "name/helper normalisation abandoned (the rewritten source does not type-check: "+firstLine(err.Error())+"); analysing the source as written")
 		w.Fset = token.NewFileSet()
 		roots, err = loadModule(abs, w.Fset, nil, "./tars/...")
 	}
@@ -181,12 +198,11 @@ func loadWorld(repo string, needs int) (*World, error) {
 		return nil, fmt.Errorf("cannot-analyse: only %d packages under ./tars/... (expected ≥ 30)", len(roots))
 	}
 	if needs&NeedTool != 0 {
-		tdir := filepath.Join(abs, "tars/tools/tars2go")
-		toverlay, tnotes := buildOverlay(tdir, abs, newKeys, "./...")
+		toverlay, tnotes := buildOverlay(tdir, abs, newKeys, toolNameOv, "./...")
 		w.Notes = append(w.Notes, tnotes...)
 		troots, err := loadModule(tdir, w.Fset, toverlay, "./...")
 		if err != nil && toverlay != nil {
-			w.Notes = append(w.Notes, "helper normalisation abandoned for tars2go ("+firstLine(err.Error())+")")
+			w.Notes = append(w.Notes, "name/helper normalisation abandoned for tars2go ("+firstLine(err.Error())+")")
 			troots, err = loadModule(tdir, w.Fset, nil, "./...")
 		}
 		if err != nil {
